@@ -652,6 +652,11 @@ func (c *Case) fixTypes() {
 	for _, a := range c.Args {
 		a.fixTypes()
 	}
+	for _, it := range c.Iters {
+		for _, a := range it {
+			a.fixTypes()
+		}
+	}
 	c.V0.fixTypes()
 	c.V1.fixTypes()
 	c.V2.fixTypes()
